@@ -329,7 +329,7 @@ func (e *Emitter) typeInvD(term string, t types.Type, depth int) string {
 			return fmt.Sprintf("(and (<= 0 %s) (< %s %s))", term, term, pow2(intBits(t)))
 		case u.Info()&types.IsInteger != 0:
 			b := intBits(t)
-			h := pow2(b - 1 + btoi(b == 64)*0)
+			var h string
 			if b == 64 {
 				h = pow2(63)
 			} else {
